@@ -17,6 +17,10 @@ pub const ALL_TIME_BURNED_FEES: Item<Asset> = Item::new("all_time_burned_fees");
 // A counter for how many active loans are being performed
 pub const LOAN_COUNTER: Item<u32> = Item::new("loan_counter");
 
+// Protocol and flash-loan fees of loans that completed while an enclosing loan is still open. They sit in the
+// vault's balance, so they are netted out of the balance snapshots of the loans still open: each loan pays its own fees
+pub const SETTLED_LOAN_FEES: Item<Uint128> = Item::new("settled_loan_fees");
+
 /// Stores a fee in the given fees_storage_item
 pub fn store_fee(
     storage: &mut dyn Storage,
